@@ -334,7 +334,7 @@ def main(argv):
         runs.append({'kind': 'variant-history', 'hist': c, 'events': events})
 
     traces = [{'id': i + 1, 'events': [
-        {k: v for k, v in e.items() if k not in ('tail', 'diff')}
+        {k: v for k, v in e.items() if k != 'tail'}
         for e in r['events']]}
         for i, r in enumerate(runs)]
     rej, st = validate_traces('Regen_Trace', TRACE, traces, chunk=100)
@@ -343,7 +343,11 @@ def main(argv):
                          if e['ev'] == 'Attempt')
     ck.states += st['distinct']
     ck.transitions += st['generated']
-    for tid, info in sorted(rej.items()):
+    verdicts = sorted(rej.items()) + sorted(
+        (x[0], [x[1], x[2], x[3]]) for x in {tuple(map(
+            lambda y: y if not isinstance(y, list) else tuple(y), z))
+            for z in st['soft']})
+    for tid, info in verdicts:
         r = runs[tid - 1]
         ev = r['events'][info[1] - 1]
         prev = [e for e in r['events'][:info[1] - 1] if e['ev'] == 'Edit']
